@@ -25,6 +25,9 @@ def run_complex_cases(cases, res, stratum):
         s, nw, nf = c['s'], c['nw'], c['nf']; re, im = c['re'], c['im']
         zs = [complex(a, b) for a, b in zip(re, im)]
         val = zs[0] if c['carrier'] == 'pycomplex' else (list(zs) if c['carrier'] == 'list' else (tuple(zs) if c['carrier'] == 'tuple' else np.array(zs, dtype=np.complex128)))
+        if c['carrier'] == 'arr:complex64': val = np.array(zs, dtype=np.complex64)
+        elif c['carrier'] == 'np:complex64': val = np.complex64(zs[0])
+        elif c['carrier'] == 'list:complex64': val = [np.complex64(z) for z in zs]
         kw = dict(rounding=c['r'], overflow=c['o'])
         try:
             if c['route'] == 'ctor': x = fx.Fxp(val, s, nw, nf, **kw)
@@ -151,7 +154,7 @@ def shard(shard, nshards, rng, tier, extra):
         if rng.random() < 0.5: vals.append(float(rng.randint(0, 3) * 2 ** -nf))
         cases.append({'s': s, 'nw': nw, 'nf': nf, 'r': rng.choice(RMODES), 'o': rng.choice(OMODES), 'carrier': rng.choice(['pyfloat', 'arr:float64', 'list']) if len(vals) == 1 else rng.choice(['arr:float64', 'list']),
                       'route': rng.choice(S.ROUTES[:3]), 'vals': vals})
-    check_cases(cases, res, 'T:tiny-floats-negative-n_frac', huge=True, keep_array=True)
+    check_cases(cases, res, 'T:tiny-floats-negative-n_frac', huge=False, keep_array=True)
     # ---- (X) complex inputs: each component on its own
     cases = []
     for _ in range((800 if tier == 'quick' else 20000) // nshards):
@@ -160,6 +163,19 @@ def shard(shard, nshards, rng, tier, extra):
         re = [float(S.as_number(v)) for v in S.boundary_values(rng, s, nw, nf, k)]; im = [float(S.as_number(v)) for v in S.boundary_values(rng, s, nw, nf, k)]
         if rng.random() < 0.2: im = [0.0] * k
         carrier = 'pycomplex' if (k == 1 and rng.random() < 0.5) else rng.choice(['list', 'tuple', 'arr:complex128'])
+        if rng.random() < 0.3:
+            # single-precision complex carriers: the components are exact float32 values (the library must still compute in double)
+            import numpy as _np
+            if rng.random() < 0.5 and nf >= 0:      # words wider than the float32 mantissa, values at and beyond the upper bound
+                nw = rng.randint(25, 40); nf = rng.randint(0, 8); lo, hi = S.fmt_bounds(s, nw)
+                re = [float(_np.float32(rng.choice([hi + 1, hi, hi // 2 + 1, 3 * hi, 1, 0.5]) / 2.0 ** nf)) for _ in range(k)]
+                im = [float(_np.float32(rng.choice([hi + 1, lo if s else 0, 1, 0.25, 2 * hi]) / 2.0 ** nf)) for _ in range(k)]
+            else:
+                re = [float(_np.float32(v)) for v in re]; im = [float(_np.float32(v)) for v in im]
+            if all(math.isfinite(v) for v in re + im):
+                carrier = 'np:complex64' if k == 1 and rng.random() < 0.5 else rng.choice(['arr:complex64', 'list:complex64'])
+        if nf < 0 and rng.random() < 0.3:           # a component so small that component * 2^n_frac underflows to zero: its sign still decides ceil / floor
+            re = [rng.choice([5e-324, -5e-324, 1e-320, 0.0])] * k; im = [rng.choice([5e-324, -5e-324, 0.0, 2.0 ** -nf])] * k; carrier = rng.choice(['pycomplex', 'arr:complex128']) if k == 1 else 'arr:complex128'
         cases.append({'s': s, 'nw': nw, 'nf': nf, 'r': rng.choice(RMODES), 'o': rng.choice(OMODES), 'carrier': carrier, 'route': rng.choice(['ctor', 'call', 'set_val']), 're': re, 'im': im})
     run_complex_cases(cases, res, 'X:complex-components')
     if tier != 'quick' or True:
